@@ -74,9 +74,21 @@ impl Compiler {
 
             Statement::Labeled(labeled) => self.compile_labeled(labeled),
 
-            Statement::FunctionDeclaration(func) => self.compile_function_declaration(func),
+            // Declarations have no completion value: at program level, keep them out of the
+            // register that carries the value of the last expression statement
+            Statement::FunctionDeclaration(func) => {
+                let keep = self.hold_completion_register()?;
+                let result = self.compile_function_declaration(func);
+                self.release_completion_register(keep);
+                result
+            }
 
-            Statement::ClassDeclaration(class) => self.compile_class_declaration(class),
+            Statement::ClassDeclaration(class) => {
+                let keep = self.hold_completion_register()?;
+                let result = self.compile_class_declaration(class);
+                self.release_completion_register(keep);
+                result
+            }
 
             Statement::Empty => {
                 // No-op
@@ -1020,6 +1032,24 @@ impl Compiler {
         self.try_depth -= 1;
 
         Ok(())
+    }
+
+    /// Reserve register 0 (if it is free) while a declaration is compiled, so that the
+    /// declaration's temporaries do not overwrite the program's completion value
+    fn hold_completion_register(&mut self) -> Result<Option<super::Register>, JsError> {
+        let reg = self.builder.alloc_register()?;
+        if reg == 0 {
+            Ok(Some(reg))
+        } else {
+            self.builder.free_register(reg);
+            Ok(None)
+        }
+    }
+
+    fn release_completion_register(&mut self, keep: Option<super::Register>) {
+        if let Some(reg) = keep {
+            self.builder.free_register(reg);
+        }
     }
 
     /// Compile a labeled statement
